@@ -334,7 +334,7 @@ HUGE = 1 << 40
 
 def fail_lists(tier):
     ls = [l for l in sort_lists(tier) if len(l) >= 4 and (tier != 'quick' or len(l) == 6)][:: (40 if tier == 'quick' else 60)]
-    ls += [l for l in structured_lists(tier) if len(l) <= (21 if tier == 'quick' else 40)][:: (3 if tier == 'quick' else 1)]
+    ls += [l for l in structured_lists(tier) if len(l) <= (21 if tier == 'quick' else 40)][:: (7 if tier == 'quick' else 1)]
     return ls
 
 
